@@ -12,17 +12,17 @@ import (
 var extraRules = map[string][]string{
 	// round-2 rules
 	"envelope-buffer-fresh":      {"C01", "C13"},
-	"no-error-type-assertion":    {"C02", "C06", "C11", "C15"},
-	"seterror-last":              {"C03", "C04", "C11", "C14"},
+	"no-error-type-assertion":    {"C02", "C06", "C11", "C15", "C19"},
+	"seterror-last":              {"C02", "C03", "C04", "C11", "C14", "C15"},
 	"no-readahead":               {"C01", "C03", "C09"},
 	"response-nil-guard":         {"C04", "C06", "C14"},
-	"io-err-strict":              {"C01", "C03", "C04"},
+	"io-err-strict":              {"C01", "C03", "C04", "C07"},
 	"wire-code-no-default":       {"C02", "C06"},
 	"special-envelope-validated": {"C04", "C05", "C06", "C07"},
 	"compressed-flag-honoured":   {"C01", "C05", "C07", "C08"},
 	"empty-shortcut-flags":       {"C01", "C04", "C05", "C07"},
 	"pool-lookup-agreement":      {"C08", "C12"},
-	"error-meta-complete":        {"C02", "C11"},
+	"error-meta-complete":        {"C02", "C05", "C11", "C19"},
 	"error-writes-fresh":         {"C02", "C13"},
 	"close-order":                {"C14"},
 	"send-eof-tolerated":         {"C02", "C14", "C15"},
@@ -44,7 +44,7 @@ var extraRules = map[string][]string{
 	"no-content-length-sizing":     {"C09"},
 	"codec-default-options":        {"C01"},
 	"close-arg-is-outcome":         {"C02", "C15", "C19"},
-	"trailers-after-drain":         {"C03", "C04", "C11"},
+	"trailers-after-drain":         {"C02", "C03", "C04", "C11"},
 	"request-started-on-all-exits": {"C14"},
 	"writer-must-pass-through":     {"C01", "C05"},
 	"index-safety":                 {"C06", "C07", "C18"},
@@ -52,12 +52,12 @@ var extraRules = map[string][]string{
 	"options-applied-as-given":        {"C16", "C19", "C12"},
 	"chain-keeps-every-non-nil":       {"C16", "C19"},
 	"no-deadline-only-without-header": {"C10", "C07"},
-	"grpc-error-trailers-complete":    {"C02", "C05"},
-	"wire-error-fields-unconditional": {"C02", "C05"},
+	"grpc-error-trailers-complete":    {"C02", "C05", "C19"},
+	"wire-error-fields-unconditional": {"C02", "C05", "C07", "C19"},
 	"decompress-nonempty":             {"C01", "C08"},
 	"handler-never-drains-request":    {"C14"},
-	"request-bound-to-context":        {"C14", "C15"},
-	"err-not-overwritten":             {"C02", "C04", "C06", "C14"},
+	"request-bound-to-context":        {"C10", "C14", "C15"},
+	"err-not-overwritten":             {"C02", "C04", "C06", "C14", "C15"},
 	"timeout-handler":                 {"C15"},
 	"ctx-first-wrapper":               {"C04"},
 	"ready-closed-once":               {"C04"},
@@ -66,7 +66,7 @@ var extraRules = map[string][]string{
 	"unary-always-decodes":            {"C07", "C01"},
 	"put-error-on-success-checked":    {"C08", "C01"},
 	"gen-line-starts-literal":         {"C17"},
-	"unary-error-status":              {"C18"},
+	"unary-error-status":              {"C07", "C18", "C19"},
 	"chain-concat-order":              {"C12"},
 	"chain-parity":                    {"C12"},
 	"nil-skipped":                     {"C12"},
@@ -77,34 +77,34 @@ var extraRules = map[string][]string{
 	"pool-hygiene":                    {"C06", "C07"},
 	// existing rules whose mechanism other properties rest on as well
 	"header-canonical":           {"C01", "C02", "C08", "C10", "C12"},
-	"spec-constants":             {"C01", "C02", "C06", "C08", "C10", "C11"},
+	"spec-constants":             {"C01", "C02", "C06", "C08", "C10", "C11", "C12"},
 	"percent-agreement":          {"C02", "C07"},
 	"bin-header":                 {"C02", "C05"},
 	"clean-eof-only-at-boundary": {"C01", "C03", "C09"},
 	"code-text-bijection":        {"C02", "C05", "C06"},
 	"negotiate":                  {"C01", "C05", "C07"},
 	"client-encoding-validated":  {"C01"},
-	"terminator-once":            {"C01", "C04"},
+	"terminator-once":            {"C01", "C02", "C04", "C07", "C19"},
 	"eof-witness":                {"C01", "C06"},
-	"code-nonzero":               {"C02", "C04"},
+	"code-nonzero":               {"C02", "C04", "C19"},
 	"non200-is-error":            {"C02", "C04"},
 	"carrier-pairing":            {"C02"},
 	"holder-fresh":               {"C13"},
-	"bounded-read":               {"C01", "C07"},
+	"bounded-read":               {"C01", "C03", "C07", "C08"},
 	"limit-wiring":               {"C01", "C07", "C15"},
 	"timeout-arith":              {"C07"},
-	"typed-nil":                  {"C02", "C06", "C16"},
-	"frame-layout":               {"C03", "C05", "C07"},
+	"typed-nil":                  {"C02", "C06", "C07", "C16", "C19"},
+	"frame-layout":               {"C03", "C05", "C07", "C09"},
 	"full-read":                  {"C04", "C07"},
 	"receive-sets-error":         {"C04", "C15"},
-	"unary-second-receive":       {"C01", "C05"},
+	"unary-second-receive":       {"C01", "C05", "C14"},
 	"content-type-codec-inverse": {"C01", "C05", "C07"},
-	"err-fields":                 {"C05"},
-	"multi-value":                {"C01"},
+	"err-fields":                 {"C05", "C11", "C19"},
+	"multi-value":                {"C01", "C05"},
 	"wrap-once":                  {"C12"},
 	"receive-before-user":        {"C01"},
-	"close-once-after-accept":    {"C02", "C05"},
-	"coded-wrapper-exhaustive":   {"C07"},
+	"close-once-after-accept":    {"C02", "C05", "C19"},
+	"coded-wrapper-exhaustive":   {"C07", "C19"},
 	"compress-flag-wiring":       {"C08"},
 	"pool-ownership":             {"C08"},
 	"user-visible-same-map":      {"C06"},
@@ -112,23 +112,28 @@ var extraRules = map[string][]string{
 	// round-5 rules and sharing
 	"error-replaced-only-when-identified": {"C04", "C15"},
 	"compression-roles":                   {"C07"},
-	"copyn-loop":                          {"C09", "C06"},
+	"copyn-loop":                          {"C06", "C09", "C14"},
 	"ctx-code-table":                      {"C19"},
 	"ctx-before-io":                       {"C14"},
 	"close-on-all-exits":                  {"C13"},
-	"envelope-reads-bounded":              {"C01", "C03", "C06", "C09", "C14"},
+	"envelope-reads-bounded":              {"C01", "C03", "C04", "C06", "C07", "C09", "C14"},
 	"pipe-close-plain":                    {"C02", "C14"},
-	"wrappers-never-swallow":              {"C02", "C04", "C06", "C14"},
-	"end-stream-error-always-set":         {"C02", "C05", "C19"},
-	"wire-error-decode-complete":          {"C02", "C05"},
+	"wrappers-never-swallow":              {"C02", "C04", "C06", "C07", "C14", "C15"},
+	"end-stream-error-always-set":         {"C02", "C05", "C07", "C11", "C19"},
+	"wire-error-decode-complete":          {"C02", "C05", "C19"},
 	"any-not-rewrapped":                   {"C02", "C05", "C19"},
 	"unary-send-no-flush-on-failure":      {"C02", "C05"},
 	"spec-stamped-before-chain":           {"C12"},
 	"peer-text-quoted":                    {"C07"},
-	"omitted-field-deref":                 {"C04", "C06"},
+	"omitted-field-deref":                 {"C04", "C06", "C07"},
 	"gen-features-unconditional":          {"C17"},
 	"gen-no-reject":                       {"C17"},
 	"gen-import-path-matches-package":     {"C17"},
+	// wider sharing decided after round 5 (each property depends directly on the rule's mechanism)
+	"http-200-only":     {"C07"},
+	"content-type-echo": {"C07"},
+	"no-recode":         {"C02"},
+	"default-code":      {"C19"},
 }
 
 func init() {
